@@ -59,6 +59,21 @@ def type_of(v):
     raise lib.InternalError(f'bad value {v!r}')
 
 
+def is_content_ty(t):
+    """comparable content types of the modelled domain: nat, string, options and pairs of them"""
+    if t in ('nat', 'string'):
+        return True
+    if isinstance(t, tuple) and t[0] == 'option':
+        return is_content_ty(t[1])
+    if isinstance(t, tuple) and t[0] == 'pair':
+        return is_content_ty(t[1]) and is_content_ty(t[2])
+    return False
+
+
+def is_content(v):
+    return v[0] in ('nat', 'str', 'none', 'some', 'pair') and is_content_ty(type_of(v))
+
+
 def duplicable(t):
     if isinstance(t, str):
         return True
@@ -117,7 +132,7 @@ class RefMachine:
             item, amount = self.pop(2)
             if amount[0] != 'nat':
                 raise Stuck('TICKET operands')
-            if item[0] not in ('nat', 'str'):
+            if not is_content(item):
                 raise Outside()
             if amount[1] > 0:
                 key = (self.self, item)
@@ -294,7 +309,24 @@ def prog_text(p):
 
 
 def coq_cty(t):
-    return {'nat': 'CNat', 'string': 'CString'}[t]
+    if isinstance(t, str):
+        return {'nat': 'CNat', 'string': 'CString'}[t]
+    if t[0] == 'option':
+        return f'(COption {coq_cty(t[1])})'
+    return f'(CPair {coq_cty(t[1])} {coq_cty(t[2])})'
+
+
+def coq_cval(c):
+    k = c[0]
+    if k == 'nat':
+        return f'(CN {cZ(c[1])})'
+    if k == 'str':
+        return f'(CS {coq_bytes(c[1])})'
+    if k == 'none':
+        return f'(CNone {coq_cty(c[1])})'
+    if k == 'some':
+        return f'(CSome {coq_cval(c[1])})'
+    return f'(CPairV {coq_cval(c[1])} {coq_cval(c[2])})'
 
 
 def coq_ty(t):
@@ -334,9 +366,7 @@ def coq_val(v):
     if k == 'addr':
         return f'(VAddr {coq_bytes(v[1])})'
     if k == 'ticket':
-        c = v[2]
-        cc = f'(CN {cZ(c[1])})' if c[0] == 'nat' else f'(CS {coq_bytes(c[1])})'
-        return f'(VTicket {coq_bytes(v[1])} {cc} {cZ(v[3])})'
+        return f'(VTicket {coq_bytes(v[1])} {coq_cval(v[2])} {cZ(v[3])})'
     if k == 'pair':
         return f'(VPair {coq_val(v[1])} {coq_val(v[2])})'
     if k == 'some':
@@ -506,6 +536,33 @@ def random_instr(rng, depth=0):
     return ('PUSH_NAT', rng.choice(AMOUNTS))
 
 
+def content_prog(c):
+    """instructions that push the content value c"""
+    k = c[0]
+    if k == 'nat':
+        return [('PUSH_NAT', c[1])]
+    if k == 'str':
+        return [('PUSH_STR', c[1])]
+    if k == 'none':
+        return [('NONE', c[1])]
+    if k == 'some':
+        return content_prog(c[1]) + [('SOME',)]
+    return content_prog(c[2]) + content_prog(c[1]) + [('PAIR',)]
+
+
+def mint(c, n):
+    return [('PUSH_NAT', n)] + content_prog(c) + [('TICKET',), ('IF_NONE', [('PUSH_NAT', 99)], [])]
+
+
+OO = [('none', ('option', 'nat')), ('some', ('none', 'nat')), ('some', ('some', ('nat', 0))), ('some', ('some', ('nat', 1)))]
+RICH = {
+    'option (option nat)': OO,
+    'pair (option (option nat)) nat': [('pair', x, ('nat', 1)) for x in OO[:3]],
+    'option nat': [('none', 'nat'), ('some', ('nat', 0)), ('some', ('nat', 1))],
+    'pair nat string': [('pair', ('nat', 0), ('str', 'a')), ('pair', ('nat', 1), ('str', '')), ('pair', ('nat', 0), ('str', ''))],
+}
+
+
 def applicable(rng, m, depth):
     """instructions that make sense on the reference machine's current stack, weighted towards ticket operations"""
     s = m.stack
@@ -514,11 +571,31 @@ def applicable(rng, m, depth):
     snd = s[1] if len(s) > 1 else None
     if top is None or len(s) < 6:
         out += [('PUSH_NAT', rng.choice(AMOUNTS))] * 2 + [('PUSH_STR', rng.choice(STRS))]
-    if top and top[0] in ('nat', 'str') and snd and snd[0] == 'nat':
+    if top and is_content(top) and snd and snd[0] == 'nat':
         out += [('TICKET',)] * 6
     if top and top[0] in ('nat', 'str') and not (snd and snd[0] == 'nat'):
         # arrange for a TICKET: push an amount below the content
         out += [('PUSH_NAT', rng.choice(AMOUNTS)), ('SWAP',)] if snd else []
+    if len(s) < 5 and rng.random() < 0.3:
+        out += [('SEQ', mint(rng.choice(rng.choice(list(RICH.values()))), rng.choice([1, 2, 4, 6, 10])))] * 3
+    if top and is_ticket(top) and top[3] >= 2:
+        # SPLIT_TICKET with a prepared amounts pair: equal halves often (aliasing between the two results), also invalid ones
+        a = top[3]
+        k = rng.random()
+        if k < 0.45 and a % 2 == 0:
+            l = a // 2
+            r = a - l
+        elif k < 0.8:
+            l = rng.randrange(1, a)
+            r = a - l
+        else:
+            l, r = rng.choice([(0, a), (a, 0), (1, a), (a // 2, a // 2 + 1)])
+        out += [('SEQ', [('PUSH_NAT', r), ('PUSH_NAT', l), ('PAIR',), ('SWAP',), ('SPLIT_TICKET',)])] * 6
+    if top and is_ticket(top) and top[1] == m.self:
+        # mint another ticket with the same key and join it with the one on top (either operand order);
+        # whatever lies below (e.g. the other half of a split) stays alive and is compared at the end
+        tail = rng.choice([[('PAIR',)], [('SWAP',), ('PAIR',)]]) + [('JOIN_TICKETS',)]
+        out += [('SEQ', mint(top[2], rng.choice([1, 3, 5])) + tail)] * 5
     if top and is_ticket(top):
         out += [('READ_TICKET',)] * 2 + [('SOME',), ('DROP',)]
         if snd and is_ticket(snd):
@@ -530,7 +607,7 @@ def applicable(rng, m, depth):
         out += [('NIL', type_of(top))]
     if top and top[0] == 'pair':
         if is_ticket(top[1]) and is_ticket(top[2]):
-            out += [('JOIN_TICKETS',)] * 8
+            out += [('JOIN_TICKETS',)] * 6 + [('UNPAIR',)] * 8
         out += [('UNPAIR',)] * 3 + [('CAR',), ('CDR',)]
     if top and top[0] == 'nat' and snd and snd[0] == 'nat':
         out += [('PAIR',)] * 2
@@ -568,6 +645,14 @@ def gen_block(rng, m, n, depth, p_bad):
             i = random_instr(rng, depth)
         else:
             i = rng.choice(applicable(rng, m, depth))
+        if i[0] == 'SEQ':
+            for j in i[1]:
+                prog.append(j)
+                try:
+                    m.step(j)
+                except (Stuck, Outside):
+                    return prog, True
+            continue
         if i[0] in ('IF_NONE', 'IF_CONS') and len(i) == 1:
             top = m.stack[0]
             taken_first = (top[0] == 'none') if i[0] == 'IF_NONE' else (top[0] == 'list' and len(top[2]) > 0)
@@ -683,6 +768,29 @@ def split_join_unit_cases(rng, addrs):
     out.append((a0, tk(4) + [('ITER', [('DROP',)])]))
     out.append((a0, tk(4) + [('SOME',), ('ITER', [('DROP',)])]))
     out.append((a0, [('PUSH_STR', 'ab'), ('ITER', [('DROP',)])]))
+    # contents beyond nat/string: JOIN_TICKETS must use Michelson equality (None vs Some None, Pair None 1 vs Pair (Some None) 1 ...)
+    for fam in RICH.values():
+        for c1 in fam:
+            for c2 in fam:
+                out.append((a0, mint(c1, 5) + mint(c2, 3) + [('PAIR',), ('JOIN_TICKETS',)]))
+    out.append((a0, mint(OO[0], 5) + [('READ_TICKET',)]))
+    out.append((a0, mint(('pair', OO[1], ('nat', 1)), 4) + [('PUSH_NAT', 2), ('PUSH_NAT', 2), ('PAIR',), ('SWAP',), ('SPLIT_TICKET',)]))
+    # aliasing: the two results of a split must be independent tickets, and a join must not touch its operands' siblings
+    A = ('str', 'A')
+    some = lambda body: ('IF_NONE', [('PUSH_NAT', 99)], body)  # noqa: E731
+    for l, r in ((5, 5), (3, 7), (1, 1), (2, 2), (50, 50)):
+        split = [('PUSH_NAT', r), ('PUSH_NAT', l), ('PAIR',)] + mint(A, l + r) + [('SPLIT_TICKET',), some([('UNPAIR',)])]
+        join_left = mint(A, 3) + [('SWAP',), ('PAIR',), ('JOIN_TICKETS',), some([])]          # (left half + 3) : right half
+        join_right = [('SWAP',)] + join_left                                                      # (right half + 3) : left half
+        new_left = mint(A, 3) + [('PAIR',), ('JOIN_TICKETS',), some([])]                         # (3 + left half) : right half
+        finish = [('SWAP',), ('READ_TICKET',), ('CDR',), ('CDR',), ('DUG', 2), ('SWAP',), ('PAIR',), ('JOIN_TICKETS',), some([('READ_TICKET',)])]
+        for j in (join_left, join_right, new_left):
+            out.append((a0, split + j))
+            out.append((a0, split + j + finish))
+        out.append((a0, split + [('PAIR',), ('JOIN_TICKETS',), some([('READ_TICKET',)])]))
+        out.append((a0, split + [('NIL', ('ticket', 'string')), ('SWAP',), ('CONS',), ('SWAP',)] + mint(A, 3) + [('SWAP',), ('PAIR',), ('JOIN_TICKETS',), some([])]))
+        out.append((a0, split + [('SWAP',), ('SOME',), ('SWAP',)] + mint(A, 3) + [('SWAP',), ('PAIR',), ('JOIN_TICKETS',), some([]), ('SWAP',),
+                                 ('IF_NONE', [], [('READ_TICKET',)])]))
     out.append((a0, [('NIL', ('ticket', 'nat')), ('DUP',)]))
     out.append((a0, [('NONE', ('ticket', 'string')), ('DUP',)]))
     out.append((a0, [('NONE', ('pair', 'nat', ('ticket', 'string'))), ('PUSH_NAT', 1), ('DUPN', 2)]))
@@ -749,11 +857,11 @@ def run(ctx: lib.Ctx) -> None:
     rng = ctx.rng
     ctx.rule = ('programs generated by following an independent reference machine: at each step an instruction applicable to the current '
                 'stack is drawn (weights favour TICKET, SPLIT_TICKET, JOIN_TICKETS, READ_TICKET and the pair/option/list shuffling that '
-                'feeds them; amounts from {0,1,2,3,5,7,10,100,2^64+1}; three ticketers via context.address; contents nat/string), with probability '
+                'feeds them; amounts from {0,1,2,3,5,7,10,100,2^64+1}; three ticketers via context.address; contents nat/string and options/pairs of them), with probability '
                 '3-25 % an arbitrary instruction instead (DUP of tickets, JOIN of unrelated values, ...); IF_NONE/IF_CONS get a followed taken '
                 'branch and a blind dead branch; plus a fixed family of single-step SPLIT/JOIN/TICKET/DUP cases. non-trivial = the program '
                 'executes at least one ticket instruction beyond TICKET or a DUP on a value containing a ticket')
-    ctx.assumptions.append('C20: ticket contents restricted to nat and string values; the ghost ledger of the model is compared through an independent '
+    ctx.assumptions.append('C20: ticket contents restricted to nat, string and options/pairs of them; the ghost ledger of the model is compared through an independent '
                            'reference machine in the harness, not observed in pytezos; TICKET_DEPRECATED and big_map/map storage of tickets are outside the model')
     progs = []
     for path in sorted(glob.glob(os.path.join(lib.VERIF, 'corpus', PROP, '*.json'))):
@@ -772,7 +880,7 @@ def run(ctx: lib.Ctx) -> None:
     t_impl = time.time()
     for kind, addr, prog in progs:
         if ref_run(addr, prog)[0][0] == 'outside':
-            ctx.dist['skipped: TICKET content outside nat/string'] += 1
+            ctx.dist['skipped: TICKET content outside the modelled comparable types'] += 1
             continue
         obs = run_impl(addr, prog)
         nt = has(prog, ('SPLIT_TICKET', 'JOIN_TICKETS', 'READ_TICKET')) or (has(prog, ('TICKET',)) and has(prog, ('DUP', 'DUPN')))
